@@ -273,6 +273,7 @@ func probeHistory(rng *hlib.Rand, p *probeProc, probe *pkgData, idx int) *histOu
 				want = stBadSizeof
 			case ver.bad:
 				want = stBadVersion
+				kind = "version"
 			}
 			if want != "" && status != want {
 				h.fails = append(h.fails, hlib.Failure{Key: "init-rejects:probe:" + kind, Desc: fmt.Sprintf("initialize with a wrong %s returned %s, want %s", kind, status, want), Replay: strings.Join(replay, "\n")})
